@@ -24,7 +24,7 @@ Definition v_to_float (v : value) : float :=
 Definition f_calc (o : fbinop) (a b : float) : float :=
   match o with
   | FAdd => PrimFloat.add a b | FSub => PrimFloat.sub a b | FMul => PrimFloat.mul a b | FDiv => PrimFloat.div a b
-  | FRem => nan      (* f64 % f64 (fmod) is not modelled: expressions with % are compared with the oracle only *)
+  | FRem => fmod a b      (* f64 % f64 = fmod, computed exactly (lib/F64.v) *)
   end.
 
 (* Searcher::negate_value *)
